@@ -116,7 +116,11 @@ def main(ctx: Ctx) -> int:
     rv = run_tlc("MC_ConfigRoundTrip.tla", str(c), ctx.sub("meta") / "v", workers=2)
     if "RoundTripId" not in rv["violated"]:
         raise MachineryError("design variant bulk_key_typo not caught")
-    cov["design_variants_caught"] = 1
+    c.write_text(open("/verif/spec/MC_ConfigRoundTrip.cfg").read().replace('"asis"', '"numbers_shortened"'))
+    rv = run_tlc("MC_ConfigRoundTrip.tla", str(c), ctx.sub("meta") / "v2", workers=2)
+    if "RoundTripId" not in rv["violated"]:
+        raise MachineryError("design variant numbers_shortened not caught")
+    cov["design_variants_caught"] = 2
     cov["states"], cov["transitions"] = r["distinct"], r["generated"]
 
     rng = random.Random(ctx.seed)
@@ -129,10 +133,29 @@ def main(ctx: Ctx) -> int:
     nrun = 16 if ctx.quick else 96
     if MODIFIERS_ONLY:
         nrun = 8 if ctx.quick else 24
-    for k in range(nrun):
-        d = ctx.sub("proj") / str(k)
+    # the PYTHON entry (DirectWrite): the configuration file is written by BaseConfiguration(...).content from values -- no splitting, no
+    # stripping -- and rendered by `naunet render --force`; numeric rate coefficients are given as NUMBERS with all their digits
+    ndirect = (4 if ctx.quick else 12) if MODIFIERS_ONLY else (5 if ctx.quick else 16)
+    from naunet.configuration import BaseConfiguration
+
+    def isnum(x):
+        return isinstance(x, (int, float)) and not isinstance(x, bool)
+
+    def canon(x):
+        return repr(float(x)) if isnum(x) else str(x)
+    for k0 in range(nrun + ndirect):
+        direct = k0 >= nrun
+        k = k0 - nrun if direct else k0
+        d = ctx.sub("proj") / str(k0)
         d.mkdir()
-        if MODIFIERS_ONLY:
+        if direct:
+            withmods = [b for b in projects(d) if b["rate_modifier"]]
+            base = dict(withmods[k % len(withmods)])
+            solver, method = solvers[(k // len(withmods)) % 3]
+            nums = [1.2345678e-10, 12345678, 7, 0.0, 3.14159265358979e-9, 2.5e-10, 6.02214076e3, 1e-300]
+            base["rate_modifier"] = [(key, nums[(k + n_) % len(nums)] if re.fullmatch(r"[-+0-9.eE]+", val) or (k + n_) % 3 == 0 else val)
+                                     for n_, (key, val) in enumerate(base["rate_modifier"])]
+        elif MODIFIERS_ONLY:
             withmods = [b for b in projects(d) if b["rate_modifier"] or b["ode_modifier"]]
             base = withmods[k % len(withmods)]
             solver, method = solvers[(k // len(withmods)) % 3]
@@ -149,10 +172,10 @@ def main(ctx: Ctx) -> int:
         def shaped(opt, items, sep_ok=True):
             toks, raw = [], []
             for s in items:
-                shape = rng.choice(["plain", "plain", "padded"])
+                shape = "plain" if direct else rng.choice(["plain", "plain", "padded"])
                 toks.append({"shape": shape, "id": tid_of(opt, s)})
                 raw.append(f"  {s} " if shape == "padded" else s)
-                if rng.random() < 0.15:
+                if not direct and rng.random() < 0.15:
                     toks.append({"shape": "empty", "id": 0})
                     raw.append("")
             return toks, raw
@@ -165,10 +188,14 @@ def main(ctx: Ctx) -> int:
             items = base[{"yield": "yields"}.get(opt, opt)]
             toks, raw = [], []
             for key, val in items:
+                if isnum(val):
+                    toks.append({"shape": "number", "id": tid_of(opt, f"{key}={canon(val)}")})
+                    raw.append(f"{key}{sep}{val!r}")
+                    continue
                 s = f"{key}{sep}{val}"
                 inner = " " in val
                 # a table entry may be typed with blanks around the key, the separator and the value (`CO : VB88Table`): the same entry
-                pad = (k // 8) % 2 == 1 or rng.random() < 0.3
+                pad = not direct and ((k // 8) % 2 == 1 or rng.random() < 0.3)
                 if pad:
                     s = rng.choice([f"{key} {sep} {val}", f" {key}{sep} {val} ", f"{key} {sep}{val}"])
                 toks.append({"shape": "inner" if inner else ("padded" if pad else "plain"), "id": tid_of(opt, f"{key}={val}")})
@@ -218,9 +245,23 @@ def main(ctx: Ctx) -> int:
         ok_init = ok_render = True
         err = ""
         try:
-            tester = CommandTester(app.find("init"))
-            with quiet():
-                rc = tester.execute(" ".join(x for x in cli if x), interactive=False)
+            if direct:
+                conf0 = BaseConfiguration(base["name"], description="desc", element=list(base["elements"]), pseudo_element=list(base["pseudo_elements"]),
+                                          replacement=dict(base["replacement"]), allowed_species=list(base["allowed"]), required_species=list(base["required"]),
+                                          species_kwargs={"grain_symbol": base["grain"], "surface_prefix": base["surface"], "bulk_prefix": base["bulk"]},
+                                          binding_energy={k2: float(v2) for k2, v2 in base["binding"]}, photon_yield={k2: float(v2) for k2, v2 in base["yields"]},
+                                          filenames=list(base["files"]), formats=list(base["formats"]), heating=list(base["heating"]), cooling=list(base["cooling"]),
+                                          shielding=dict(base["shielding"]), grain_model=base["grain_model"], rate_modifier={str(k2): v2 for k2, v2 in base["rate_modifier"]},
+                                          ode_modifier={k3: {"factors": list(v3["factors"]), "reactants": [list(x) for x in v3["reactants"]]} for k3, v3 in om_req.items()},
+                                          solver=solver, device="cpu", method=method)
+                (d / "naunet_config.toml").write_text(conf0.content, encoding="utf-8")
+                tester = CommandTester(app.find("render"))
+                with quiet():
+                    rc = tester.execute("--force", interactive=False)
+            else:
+                tester = CommandTester(app.find("init"))
+                with quiet():
+                    rc = tester.execute(" ".join(x for x in cli if x), interactive=False)
             if rc != 0:
                 ok_render = False
                 err = (tester.io.fetch_error() or tester.io.fetch_output())[-300:]
@@ -231,7 +272,7 @@ def main(ctx: Ctx) -> int:
             nn.Network.__init__, TemplateLoader.__init__ = orig_net, orig_tl
             os.chdir(cwd0)
         ok_init = (d / "naunet_config.toml").exists()
-        ev = [{"act": "Config", "ok": ok_init, "err": err}]
+        ev = [{"act": "Direct" if direct else "Config", "ok": ok_init, "err": err}]
 
         def decode(values: dict):
             """python values -> token records per option"""
@@ -240,7 +281,8 @@ def main(ctx: Ctx) -> int:
                 out[opt] = [{"shape": "inner" if " " in s else "plain", "id": ids.get(opt, {}).get(s, 99)} for s in values.get(opt, ["<missing>"])]
             for opt in list(TABLE_OPTS) + ["ode_modifier"]:
                 tab = values.get(opt, {"<missing>": ""})
-                out[opt] = [{"shape": "inner" if " " in str(v2) else "plain", "id": ids.get(opt, {}).get(f"{k2}={fmtv(v2)}", 99)} for k2, v2 in tab.items()]
+                out[opt] = [{"shape": "number" if opt == "rate_modifier" and isnum(v2) else "inner" if " " in str(v2) else "plain",
+                             "id": ids.get(opt, {}).get(f"{k2}={canon(v2) if opt == 'rate_modifier' else fmtv(v2)}", 99)} for k2, v2 in tab.items()]
             for opt in SCALARS:
                 out[opt] = [{"shape": "plain", "id": ids.get(opt, {}).get(values.get(opt, "<missing>"), 99)}]
             return out
@@ -332,7 +374,8 @@ def main(ctx: Ctx) -> int:
                     ev.append({"act": "Summary", "consistent": all(facts.values()), "failed": [k2 for k2, v2 in facts.items() if not v2]})
                 except Exception as e:   # noqa
                     ev.append({"act": "Summary", "consistent": False, "failed": [f"{type(e).__name__}: {str(e)[:80]}"]})
-        traces.append({"tid": len(traces) + 1, "req": req, "ev": ev, "cli": " ".join(x for x in cli if x)[:600], "project": base["name"], "be": f"{solver}/{method}"})
+        traces.append({"tid": len(traces) + 1, "req": req, "ev": ev, "cli": ("BaseConfiguration(...) + render --force: " if direct else "") + " ".join(x for x in cli if x)[:600],
+                       "project": base["name"] + (" (python entry)" if direct else ""), "be": f"{solver}/{method}"})
         Species.reset()
     # `naunet example --select=i`: the command line it hands to `naunet init` (obtained with --dry, executed without --render) must write
     # the tables of the example module into the configuration
@@ -405,7 +448,9 @@ def main(ctx: Ctx) -> int:
     import project_life
     if not MODIFIERS_ONLY:
         project_life.run(ctx, cov)
-    cov["rule"] = "init+render runs over seven project kinds x three solver choices with padded / empty tokens in list options; non-trivial = every run"
+    cov["python_entry_runs"] = ndirect
+    cov["rule"] = ("init+render runs over eight project kinds x three solver choices with padded / empty tokens in list options, and BaseConfiguration(...) + render runs "
+                   "(the Python entry) with numeric rate coefficients given as numbers; non-trivial = every run")
     cov["exhaustive"] = False
     return finish(ctx, "model_checking", cov, [
         "token strings live in the driver; TLC sees shapes and ids (per option) and judges the four stages and the field-wise equality",
